@@ -20,7 +20,7 @@ RULE = ("Case = sender (SBlock whose 'set' event assigns the output, initialised
         "routine or by an event arriving during start-up; or FuncBlock identity/bool/pair/const fed by an "
         "Input, one evaluation per value or several puts per evaluation) x 0-3 on_output x 0-3 "
         "on_every_output events over <=3 shared recorders, each event with 0-2 filters from "
-        "{add tag, delete 'trigger', reject-if-value-in-set} x history of 0-30 assignments over "
+        "{add tag, delete 'trigger', strip all items, reject-if-value-in-set} x history of 0-30 assignments over "
         "{1,True,1.0,0,False,0.0,None,'',(1,2),[1],'a',2,2.0} with fresh equal copies and immediate "
         "repeats. Non-trivial = history with >=1 change between values of different type that compare "
         "equal or an equal-not-identical repeat, >=1 immediate repeat, and >=2 configured events; "
@@ -65,6 +65,7 @@ class Probe(edzed.SBlock):
 filter_st = st.one_of(
     st.integers(0, 5).map(lambda i: ['add', i]),
     st.just(['deltrig']),
+    st.just(['strip']),
     st.lists(st.integers(0, len(POOL) - 1), min_size=1, max_size=3, unique=True).map(
         lambda idxs: ['reject', sorted(idxs)]),
 )
@@ -117,8 +118,10 @@ def apply_filters(filters, data):
             data['tag'] = f[1]
         elif f[0] == 'deltrig':
             data.pop('trigger', None)
+        elif f[0] == 'strip':
+            data = {}           # an empty mapping is still data, not a veto
         else:
-            if any(data['value'] == POOL[i] for i in f[1]):
+            if 'value' in data and any(data['value'] == POOL[i] for i in f[1]):
                 return None
     return data
 
@@ -128,8 +131,10 @@ def mkfilter(f):
         return edzed.DataEdit.add(tag=f[1])
     if f[0] == 'deltrig':
         return edzed.DataEdit.delete('trigger')
+    if f[0] == 'strip':
+        return edzed.DataEdit.permit()
     idxs = list(f[1])
-    return lambda data: not any(data['value'] == POOL[i] for i in idxs)
+    return lambda data: not ('value' in data and any(data['value'] == POOL[i] for i in idxs))
 
 
 def sender_func(name):
@@ -308,7 +313,7 @@ def execute(case):
         if case['kind'] == 'sblock' or case['func'] == 'identity':
             # identity: 'previous' is the old output object, 'value' the assigned object
             for key in ('previous', 'value'):
-                if gd[key] is not ed[key]:
+                if key in gd and gd[key] is not ed[key]:
                     res.fail('C02.identity', f"delivery {n}: {key!r} is an equal object but not the "
                              f"one that was assigned ({gd[key]!r})")
                     break
